@@ -284,36 +284,62 @@ theorem model_variable_usages_eq_spec {S : Schema} {D : Document} (h : WellScope
     primaryFree a.errs =
         (bodyUsages S d).all (fun u => Spec.usageDefinedIn vars u && Spec.usageAllowedIn S vars u) ∧
       a.encountered = (bodyUsages S d).map (·.name) ∧
-      a.spreads = Spec.spreadsInSet (Model.defSel d) := by
-  intro a
-  obtain ⟨e, hocc⟩ := def_occs h hd
-  obtain ⟨d1, d2, d3⟩ := varsDirectives_spec S hw vars (Model.defDirs d)
-  obtain ⟨f1, f2, f3⟩ := vars_set_flat S vars (Model.defScope S d) (Model.defSel d)
-  rw [e] at f1 f2 f3
-  have d1' : (varsDirectives S vars (Model.defDirs d)).errs =
-      (Spec.usagesDirs S (Spec.defDirs d)).flatMap (usageErrs S vars) := by rw [← defDirs_eq]; exact d1
-  have d2' : (varsDirectives S vars (Model.defDirs d)).encountered =
-      (Spec.usagesDirs S (Spec.defDirs d)).map (·.name) := by rw [← defDirs_eq]; exact d2
-  have g1 : (Spec.occDef S d).flatMap (fun o => (varsOcc S vars o).errs) =
-      ((Spec.occDef S d).flatMap (Spec.usagesOcc S)).flatMap (usageErrs S vars) := by
-    rw [List.flatMap_assoc]
-    exact flatMap_congr_mem _ _ _ (fun o ho => (varsOcc_spec h.wf hw vars (hocc o ho).1 (hocc o ho).2).1)
-  have g2 : (Spec.occDef S d).flatMap (fun o => (varsOcc S vars o).encountered) =
-      ((Spec.occDef S d).flatMap (Spec.usagesOcc S)).map (·.name) := by
-    rw [List.map_flatMap]
-    exact flatMap_congr_mem _ _ _ (fun o ho => (varsOcc_spec h.wf hw vars (hocc o ho).1 (hocc o ho).2).2.1)
-  have g3 : (Spec.occDef S d).flatMap (fun o => (varsOcc S vars o).spreads) = Spec.spreadsInSet (Model.defSel d) := by
-    rw [spreadsInSet_eq, spreadNames_set_flat S (specDefScope S d), ← occDef_eq, ← filterMap_toList]
-    exact flatMap_congr_mem _ _ _ (fun o ho => (varsOcc_spec h.wf hw vars (hocc o ho).1 (hocc o ho).2).2.2)
-  refine ⟨?_, ?_, ?_⟩
-  · show primaryFree (a.errs) = _
-    simp only [a, VarAcc.errs_append, d1', f1, g1, bodyUsages, ← List.flatMap_append]
-    rw [primaryFree_flatMap]
-    apply all_congr_mem
-    intro u _
-    exact usageErrs_ok S vars u
-  · simp only [a, VarAcc.encountered_append, d2', f2, g2, bodyUsages, List.map_append]
-  · simp only [a, VarAcc.spreads_append, d3, f3, g3, List.nil_append]
+      a.spreads = Spec.spreadsInSet (Model.defSel d) :=
+  body_usages_spec h hw hd vars
+
+/-- **Fragment cycles group** (validate_fragments.go:65-102 = §5.5.2.2), all documents with unique
+    fragment names: the breadth-first search of the model terminates within its fuel for every
+    fragment and reports "fragment cycle detected" iff the specification's closure finds a fragment
+    that reaches itself. -/
+theorem model_fragment_cycles_eq_spec {D : Document} (hu : Spec.fragmentNamesUnique D = true) :
+    Model.fragmentCycleErrors D = ([], false) ↔ Spec.noFragmentCycles D = true := by
+  unfold Model.fragmentCycleErrors
+  rw [cycleLoop_spec D _ (by
+    intro n hn
+    have : n ∈ (Model.fragsOf D).map (·.name) := (mem_dedup _ n).1 (by simpa [Model.dedup, Spec.dedup] using hn)
+    exact fragLast_isSome_of_mem D n this), noFragmentCycles_iff]
+  have hmem : ∀ n, n ∈ Model.dedup ((Model.fragsOf D).map (·.name)) ↔ n ∈ Spec.fragNames D := by
+    intro n
+    rw [← fragsOf_names]
+    exact mem_dedup _ n
+  constructor
+  · intro h n hn hr
+    exact h n ((hmem n).2 hn) (hr.mono (fun a x hx => (directDeps_spec hu a x).2 hx))
+  · intro h n hn hr
+    exact h n ((hmem n).1 hn) (hr.mono (fun a x hx => (directDeps_spec hu a x).1 hx))
+
+/-- **Variables group, partial** (validate_variables.go = §5.8.1 – §5.8.5), all well-scoped
+    documents with unique fragment names: *if the worklists of the pass come back within their fuel*
+    (the `false` flag), the model reports a primary error iff a variable is declared twice, has a
+    non-input type, is used without being declared, is declared without being used, or is used where
+    its type is not allowed — counting the usages in every fragment the operation reaches, with the
+    expected types TypeInfo computes for nested values.
+    Partial because fuel sufficiency of the worklist is not proved (the full statement has no
+    `hrun` hypothesis and says the flag is `false`); the driver reports the flag on every case and it
+    has never been `true`. -/
+theorem model_variables_eq_spec_partial {S : Schema} {D : Document} (hws : WellScoped S D)
+    (hw : Schema.wfDefaults S = true) (hu : Spec.fragmentNamesUnique D = true) (fuel : Nat) (errs : List Err)
+    (hrun : Model.validateVariables S D fuel = (errs, false)) :
+    primaryFree errs =
+      (Spec.variablesUnique D && Spec.variablesAreInputTypes S D && Spec.variableUsesDefined S D &&
+        Spec.variablesUsed S D && Spec.variableUsagesAllowed S D) := by
+  rw [variableRules_doc]
+  exact validateVariablesDefs_spec hws hw hu fuel D errs (fun _ h => h) hrun
+
+/-- **Variables group** (validate_variables.go = §5.8.1 – §5.8.5), all well-scoped documents with
+    unique fragment names, no fuel hypothesis: with the pipeline's fuel the variable pass comes back
+    for every operation (the `false` flag) and reports a primary error iff a variable is declared
+    twice, has a non-input type, is used without being declared, is declared without being used, or
+    is used where its type is not allowed — counting the usages in every fragment the operation
+    reaches, with the expected types TypeInfo computes for nested values. -/
+theorem model_variables_eq_spec {S : Schema} {D : Document} (hws : WellScoped S D)
+    (hw : Schema.wfDefaults S = true) (hu : Spec.fragmentNamesUnique D = true) :
+    ∃ errs, Model.validateVariables S D (Model.fuelFor D) = (errs, false) ∧
+      primaryFree errs =
+        (Spec.variablesUnique D && Spec.variablesAreInputTypes S D && Spec.variableUsesDefined S D &&
+          Spec.variablesUsed S D && Spec.variableUsagesAllowed S D) := by
+  obtain ⟨errs, he⟩ := validateVariablesDefs_total (S := S) hu D (fun _ h => h)
+  exact ⟨errs, he, model_variables_eq_spec_partial hws hw hu _ errs he⟩
 
 /-! ## Assembly: soundness and completeness for the proved groups -/
 
@@ -327,6 +353,8 @@ structure ProvedPassesClean (S : Schema) (D : Document) : Prop where
   values : primaryFree (Model.validateValues S D) = true
   directives : Model.validateDirectives S D = []
   variableDefs : ∀ d ∈ D, variableDefErrors S [] (Model.varDefsOf d) = []
+  cycles : Model.fragmentCycleErrors D = ([], false)
+  variables : ∃ errs, Model.validateVariables S D (Model.fuelFor D) = (errs, false) ∧ primaryFree errs = true
 
 /-- The rules of the specification that belong to those passes. -/
 structure ProvedRulesHold (S : Schema) (D : Document) : Prop where
@@ -350,16 +378,21 @@ structure ProvedRulesHold (S : Schema) (D : Document) : Prop where
   directivesUnique : Spec.directivesUnique S D = true
   variablesUnique : Spec.variablesUnique D = true
   variablesAreInputTypes : Spec.variablesAreInputTypes S D = true
+  noFragmentCycles : Spec.noFragmentCycles D = true
+  variableUsesDefined : Spec.variableUsesDefined S D = true
+  variablesUsed : Spec.variablesUsed S D = true
+  variableUsagesAllowed : Spec.variableUsagesAllowed S D = true
 
 theorem wellScoped_of_rules {S : Schema} {D : Document} (hwf : S.wf = true) (h : ProvedRulesHold S D) :
     WellScoped S D :=
   { wf := hwf, ops := h.opTypeSupported, typesExist := h.fragmentTypesExist, onComposite := h.fragmentsOnComposite,
     fields := h.fieldsDefined, leaves := h.leafSelections }
 
-/-- **Completeness, proved groups**: if the 20 rules of the proved groups hold (in particular if
+/-- **Completeness, proved groups**: if the 24 rules of the proved groups hold (in particular if
     `Spec.valid S D`), none of the corresponding model passes reports a primary error — on fields,
     arguments, directives, fragments and values at any depth. -/
-theorem validate_complete_partial {S : Schema} {D : Document} (hwf : S.wf = true) (h : ProvedRulesHold S D) :
+theorem validate_complete_partial {S : Schema} {D : Document} (hwf : S.wf = true)
+    (hw : Schema.wfDefaults S = true) (h : ProvedRulesHold S D) :
     ProvedPassesClean S D := by
   have hws := wellScoped_of_rules hwf h
   exact {
@@ -373,13 +406,21 @@ theorem validate_complete_partial {S : Schema} {D : Document} (hwf : S.wf = true
       rw [model_fragment_spreads_eq_spec hws h.fragmentNamesUnique, h.spreadsDefined, h.spreadsPossible]; rfl
     values := by rw [model_values_eq_spec hws, h.valuesCorrect]
     directives := (model_directives_eq_spec S D).2 ⟨h.directivesDefined, h.directivesInLocation, h.directivesUnique⟩
-    variableDefs := (model_variable_definitions_eq_spec S D).2 ⟨h.variablesUnique, h.variablesAreInputTypes⟩ }
+    variableDefs := (model_variable_definitions_eq_spec S D).2 ⟨h.variablesUnique, h.variablesAreInputTypes⟩
+    cycles := (model_fragment_cycles_eq_spec h.fragmentNamesUnique).2 h.noFragmentCycles
+    variables := by
+      obtain ⟨errs, he, hp⟩ := model_variables_eq_spec hws hw h.fragmentNamesUnique
+      refine ⟨errs, he, ?_⟩
+      rw [hp, h.variablesUnique, h.variablesAreInputTypes, h.variableUsesDefined, h.variablesUsed,
+        h.variableUsagesAllowed]
+      rfl }
 
-/-- **Soundness, proved groups**: if none of those model passes reports a primary error, the 20
+/-- **Soundness, proved groups**: if none of those model passes reports a primary error, the 21
     rules hold. The order matters and is the code's: operations and declarations establish the
     scopes, the first pass over the fields makes the document well-scoped, then arguments, spreads
     and values mean what the specification says. -/
-theorem validate_sound_partial {S : Schema} {D : Document} (hwf : S.wf = true) (h : ProvedPassesClean S D) :
+theorem validate_sound_partial {S : Schema} {D : Document} (hwf : S.wf = true)
+    (hw : Schema.wfDefaults S = true) (h : ProvedPassesClean S D) :
     ProvedRulesHold S D := by
   obtain ⟨o1, o2, o3⟩ := (model_operations_eq_spec_partial S D).1 h.operations
   obtain ⟨f1, f2, f3, f4⟩ := (model_fragment_declarations_eq_spec S D).1 h.declarations
@@ -395,14 +436,23 @@ theorem validate_sound_partial {S : Schema} {D : Document} (hwf : S.wf = true) (
   rw [model_values_eq_spec hws] at hv
   obtain ⟨d1, d2, d3⟩ := (model_directives_eq_spec S D).1 h.directives
   obtain ⟨v1, v2⟩ := (model_variable_definitions_eq_spec S D).1 h.variableDefs
-  exact ⟨o1, o2, o3, f1, f2, f3, f4, hf.1, hf.2, ha.1.1, ha.1.2, ha.2, hs.1, hs.2, hv, d1, d2, d3, v1, v2⟩
+  obtain ⟨errs, he, hp⟩ := h.variables
+  obtain ⟨errs', he', hp'⟩ := model_variables_eq_spec hws hw f1
+  have hee : errs' = errs := by
+    rw [he] at he'
+    exact (Prod.mk.inj he').1.symm
+  rw [hee, hp] at hp'
+  have hvar := hp'.symm
+  simp only [Bool.and_eq_true] at hvar
+  exact ⟨o1, o2, o3, f1, f2, f3, f4, hf.1, hf.2, ha.1.1, ha.1.2, ha.2, hs.1, hs.2, hv, d1, d2, d3, v1, v2,
+    (model_fragment_cycles_eq_spec f1).1 h.cycles, hvar.1.1.2, hvar.1.2, hvar.2⟩
 
 /-- `Spec.valid` gives the rules of the proved groups (it is the conjunction of all 26 rules). -/
 theorem provedRules_of_valid {S : Schema} {D : Document} (h : Spec.valid S D = true) : ProvedRulesHold S D := by
   unfold Spec.valid Spec.rules at h
   simp only [List.all_cons, List.all_nil, Bool.and_true, Bool.and_eq_true] at h
-  obtain ⟨a1, a2, a3, _, a5, a6, _, a8, a9, a10, a11, a12, a13, a14, a15, _, a17, a18, a19, a20, a21, a22, a23, _, _, _⟩ := h
-  exact ⟨a1, a2, a3, a11, a12, a13, a14, a5, a6, a8, a9, a10, a15, a17, a18, a19, a20, a21, a22, a23⟩
+  obtain ⟨a1, a2, a3, _, a5, a6, _, a8, a9, a10, a11, a12, a13, a14, a15, a16, a17, a18, a19, a20, a21, a22, a23, a24, a25, a26⟩ := h
+  exact ⟨a1, a2, a3, a11, a12, a13, a14, a5, a6, a8, a9, a10, a15, a17, a18, a19, a20, a21, a22, a23, a16, a24, a25, a26⟩
 
 /-- **No spurious secondary error, first field pass**: on a well-scoped document the first pass of
     validateFields emits no secondary error ("no type info for field" never stands alone). -/
@@ -425,10 +475,11 @@ theorem spreads_no_secondary {S : Schema} {D : Document} (h : WellScoped S D) :
 /-- **Completeness incl. secondary errors** for the first field pass and the spread inspection:
     if §5.3.1, §5.3.3 (resp. §5.5.2.1, §5.5.2.3) hold on a well-scoped document these passes report
     nothing at all. -/
-theorem fields_and_spreads_silent {S : Schema} {D : Document} (hwf : S.wf = true) (h : ProvedRulesHold S D) :
+theorem fields_and_spreads_silent {S : Schema} {D : Document} (hwf : S.wf = true)
+    (hw : Schema.wfDefaults S = true) (h : ProvedRulesHold S D) :
     Model.validateFields1 S D = [] ∧ Model.spreadChecks S D = [] := by
   have hws := wellScoped_of_rules hwf h
-  have hc := validate_complete_partial hwf h
+  have hc := validate_complete_partial hwf hw h
   exact ⟨nil_of_primaryFree_allPrimary hc.fields (fields_no_secondary hws),
     nil_of_primaryFree_allPrimary hc.spreads (spreads_no_secondary hws)⟩
 
@@ -514,26 +565,5 @@ example : (exListObjectVar.flatMap (Spec.defUsages exS exListObjectVar)).map (·
     [some (.named "Boolean")] := by decide
 
 
-
-/-- **Fragment cycles group** (validate_fragments.go:65-102 = §5.5.2.2), all documents with unique
-    fragment names: the breadth-first search of the model terminates within its fuel for every
-    fragment and reports "fragment cycle detected" iff the specification's closure finds a fragment
-    that reaches itself. -/
-theorem model_fragment_cycles_eq_spec {D : Document} (hu : Spec.fragmentNamesUnique D = true) :
-    Model.fragmentCycleErrors D = ([], false) ↔ Spec.noFragmentCycles D = true := by
-  unfold Model.fragmentCycleErrors
-  rw [cycleLoop_spec D _ (by
-    intro n hn
-    have : n ∈ (Model.fragsOf D).map (·.name) := (mem_dedup _ n).1 (by simpa [Model.dedup, Spec.dedup] using hn)
-    exact fragLast_isSome_of_mem D n this), noFragmentCycles_iff]
-  have hmem : ∀ n, n ∈ Model.dedup ((Model.fragsOf D).map (·.name)) ↔ n ∈ Spec.fragNames D := by
-    intro n
-    rw [← fragsOf_names]
-    exact mem_dedup _ n
-  constructor
-  · intro h n hn hr
-    exact h n ((hmem n).2 hn) (hr.mono (fun a x hx => (directDeps_spec hu a x).2 hx))
-  · intro h n hn hr
-    exact h n ((hmem n).1 hn) (hr.mono (fun a x hx => (directDeps_spec hu a x).1 hx))
 
 end ApiFu.C04
